@@ -104,7 +104,7 @@ class Record:
     __slots__ = ("case", "trace", "acts", "sched", "outcome", "kernel_violations", "fired",
                  "final_status", "monitor_violations", "notes", "fault_log",
                  "unraisable", "ticks", "n_act", "end_time", "start_time", "time_steps",
-                 "world", "raised")
+                 "world", "raised", "env_now_after")
 
     def digest_items(self):
         """Observable event log without tick numbers or addresses."""
